@@ -218,6 +218,18 @@ RES_TABLE = {
 }
 
 
+def _strip_closure(fk):
+    return re.sub(r"(::\{closure#\d+\})+$", "", fk)
+
+
+# the tables are keyed by the enclosing function: a closure rewritten as straight-line code (or the reverse) is the same site
+RES_TABLE_N = {(_strip_closure(f), c, k): v for (f, c, k), v in RES_TABLE.items()}
+# a probe is a probe whichever way round it is asked
+for (_f, _c, _k), _v in list(RES_TABLE_N.items()):
+    if _k in ("is_ok", "is_err"):
+        RES_TABLE_N.setdefault((_f, _c, "is_err" if _k == "is_ok" else "is_ok"), _v)
+
+
 def _consume(ctx, b, local, bb, depth=0, seen=None):
     """How is the Result in `local` (defined at the end of block bb) consumed? -> set of (kind, detail)."""
     cfg = cfg_of(b)
@@ -358,12 +370,13 @@ def r2_error_discipline(ctx):
                 continue
             bad = sorted(kinds - good - {"passed"})
             tolerated = []
+            fkn = _strip_closure(fk)
             for k in bad:
                 kk = k.replace("fallback+", "")
-                if (fk, c, k) in RES_TABLE or (fk, c, kk) in RES_TABLE or (k.startswith("fallback") and _fallback_ok(fk)) or k == "asserted":
+                if (fkn, c, k) in RES_TABLE_N or (fkn, c, kk) in RES_TABLE_N or (k.startswith("fallback") and _fallback_ok(fk)) or k == "asserted":
                     tolerated.append(k)
             if bad and set(bad) == set(tolerated):
-                why = "; ".join(RES_TABLE.get((fk, c, k), RES_TABLE.get((fk, c, k.replace("fallback+", "")), "constructor fallback chain / asserted (see C10.R1)")) for k in bad)
+                why = "; ".join(RES_TABLE_N.get((fkn, c, k), RES_TABLE_N.get((fkn, c, k.replace("fallback+", "")), "constructor fallback chain / asserted (see C10.R1)")) for k in bad)
                 out.append(holds("C10.R2", key, t.where(), "tolerated non-propagating use (%s): %s" % ("/".join(bad), why)))
             elif not bad and "passed" in kinds:
                 out.append(holds("C10.R2", key, t.where(), "result handed to %s" % sorted(d for (k, d) in uses if k == "passed")))
@@ -489,6 +502,12 @@ def r3_loops(ctx):
                     out.append(holds("C10.R3", key, where, "loop driven by a finite iterator / queue: %s" % "; ".join(desc)))
                 else:
                     out.append(violated("C10.R3", key, where, "loop driven by an iterator that is not known to be finite: %s" % "; ".join(desc)))
+                continue
+            # counted loop (`while n > 0 { n -= 1; .. }`)
+            from ..cut import counter_loop_bound
+            cl = counter_loop_bound(b, T, h, blks)
+            if cl is not None:
+                out.append(holds("C10.R3", key, where, "counted loop: %s%s" % (cl[1], "" if cl[0] is None else " (at most %d iterations)" % cl[0])))
                 continue
             # no exhaustion-driven exit: needs a table entry
             tag = None
@@ -695,12 +714,23 @@ def r8_openat2_eagain(ctx):
                     why.append("the EAGAIN arm leaves the retry loop")
             # the loop is driven by a finite iterator and its exhaustion produces SafetyViolation, never Ok
             drv = [d for d in b.calls("std::iter::Iterator::next") if d.bb in blks and FINITE_ITER.search((d.argtys or [""])[0])]
-            if not drv:
+            from ..cut import counter_loop_bound
+            cl = counter_loop_bound(b, T, h, blks) if not drv else None
+            if not drv and (cl is None or cl[0] is None or cl[0] > 1024):
                 ok = False
-                why.append("retry loop is not driven by a finite iterator")
+                why.append("retry loop is not driven by a finite iterator or a constant counter")
             else:
-                dr = result_edges(b, drv[0])
-                none_edges = [e for e in (dr["err"] if dr else []) if True]
+                if drv:
+                    dr = result_edges(b, drv[0])
+                    none_edges = [e for e in (dr["err"] if dr else []) if True]
+                    drvdesc = drv[0].argtys[0][:50]
+                else:
+                    # exhaustion = leaving the loop at the counter test
+                    none_edges = [e for x in blks for e in cfg.succ.get(x, []) if e.dst not in blks and b.blocks[x].term.kind == "switch"
+                                  and b.blocks[x].term.raw.get("dty") == "bool" and x == h]
+                    if not none_edges:
+                        none_edges = [e for e in cfg.succ.get(h, []) if e.dst not in blks]
+                    drvdesc = cl[1]
                 ex = cfg.edge_targets_reachable(none_edges, cut_nodes=[h]) if none_edges else set()
                 sv = any(s.kind == "assign" and s.rv["k"] == "agg" and s.rv.get("adt") == "error::ErrorImpl" and s.rv.get("variant") == "SafetyViolation"
                          for x in ex for s in b.blocks[x].stmts)
@@ -709,7 +739,7 @@ def r8_openat2_eagain(ctx):
                     ok = False
                     why.append("exhausting the retries does not produce a SafetyViolation error")
             if ok:
-                out.append(holds("C10.R8", key, t.where(), "EAGAIN -> continue in a loop over %s; exhaustion -> SafetyViolation" % (drv[0].argtys[0][:50])))
+                out.append(holds("C10.R8", key, t.where(), "EAGAIN -> continue in a loop over %s; exhaustion -> SafetyViolation" % drvdesc))
             else:
                 out.append(violated("C10.R8", key, t.where(), "; ".join(why)))
     if n == 0:
